@@ -11,7 +11,7 @@ MODE = 'expandg'
 MARKUP_ABBRS = ['ul>li.item$*3', 'a', 'div.b_m>p.-e', 'p{${foo}}', 'ul>li*', '(', 'a{', 'div>p*2>span', 'lorem-', 'x.a.b', '!', 'table>tr>td', '[', 'input:t', 'p{$#}', '.b>.-e_m', 'ul>li[title=$#]*',
                 'btn', 'doc', 'v', 'v>em', 'html:xt', 'h$[t=$$]*2', 'em>b', 'div#a.b', 'form:post', 'br', 'img', 'cc:ie', 'p>{a}+{b}', 'lorem-box', 'ul>lorem_item*2', 'lorem5x>b', 'x-badge>.count', 'em>.a', 'div>em>.a', 'my-el>.k+[t]',
                 'a[title=$#]*', 'p>{$#}', 'section>p']
-CSS_ABBRS = ['p10', 'm10-20', 'foo', 'bar', 'w100p', 'c#f', 'pos:a', 'bd1-s', 'lh1.5', 'foo5', 'z10', '(', 'p$', 'fl', 'd:n', 'op.5', 'lg(to right, #0, #f.5)', 'bar2', 'trf:r', 'trf:s(2)', 'trf:scale', 'trf:s', 'trf:t(1, 2)', 'trf:t', 'p10r', 'w5p']
+CSS_ABBRS = ['p10', 'm10-20', 'foo', 'bar', 'w100p', 'c#f', 'pos:a', 'bd1-s', 'lh1.5', 'foo5', 'z10', '(', 'p$', 'fl', 'd:n', 'op.5', 'lg(to right, #0, #f.5)', 'bar2', 'trf:r', 'trf:s(2)', 'trf:scale', 'trf:s', 'trf:t(1, 2)', 'trf:t', 'p10r', 'w5p', 'm0', 'm-0', 'p0-0', 'm-0-0', 'lh0', 'lh-0']
 NESTED_BAD = {'snippets': {'menu': 'nav>item', 'item': 'li[title="]', 'box': 'div>menu'}}          # resolving `item` raises a parse error in the middle of nested resolution
 NESTED_OK = {'snippets': {'menu': 'nav>item', 'item': 'li[title=""]', 'box': 'div>menu'}}
 CSS_NEST = {'type': 'stylesheet', 'snippets': {'bgz': 'background-zoom:zigzag|zebra', 'posx': 'position-x:stuck|floaty'}}      # user properties that nest under built-in ones
@@ -226,7 +226,11 @@ def run(case, prop):
         else:
             if isinstance(c, Config): c.cache = None
             else: c.pop('cache', None)
-        try: return ('ok', expand(step['s'], c, globs[step['glob']]) if 'glob' in step else expand(step['s'], c))
+        g_ = globs[step['glob']] if 'glob' in step else None
+        if g_ is not None and len(g_) > 1 and (len(step['s']) % 2):
+            import collections as _co
+            g_ = _co.OrderedDict(reversed(list(g_.items())))          # the order in which the owner wrote the sections means nothing
+        try: return ('ok', expand(step['s'], c, g_) if 'glob' in step else expand(step['s'], c))
         except ScannerException as e: return ('scanner', e.pos)
         except TokenScannerException as e: return ('token', e.pos)
         except RecursionError: raise
